@@ -154,8 +154,14 @@ def run_1d(case, rec):
             res = resolution.Pinhole1D(q, s, q_calc=qc)
         else:
             res = resolution.Slit1D(q, q_length=L if L else None, q_width=W if W else None, q_calc=qc)
-        got = res.apply(f(res.q_calc))
+        theory = np.ascontiguousarray(f(res.q_calc), float)
+        theory0 = theory.copy()
+        got = res.apply(theory)
         errs.append(np.abs(got - exact))
+        again = res.apply(theory)
+        rec.check("input_unchanged_and_repeatable", bool(np.array_equal(theory, theory0) and np.array_equal(got, again)),
+                  {"geometry": geom, "theory_changed": not bool(np.array_equal(theory, theory0)),
+                   "second_result_differs": not bool(np.array_equal(got, again))})
         # a batch of curves through one calculator: the first result still holds its values after the next ones
         held = core.Held()
         held.keep("first curve smeared by this calculator", got)
@@ -255,7 +261,13 @@ def run_2d(case, rec):
     rec.bucket("geom:2d")
     for acc in ("low", "med", "high", "xhigh"):
         res = resolution2d.Pinhole2D(data=d, index=None, nsigma=3.0, accuracy=acc)
-        got = res.apply(f(np.asarray(res.q_calc[0]), np.asarray(res.q_calc[1])))
+        theory = np.ascontiguousarray(f(np.asarray(res.q_calc[0]), np.asarray(res.q_calc[1])), float)
+        theory0 = theory.copy()
+        got = res.apply(theory)
+        again = res.apply(theory)
+        rec.check("input_unchanged_and_repeatable", bool(np.array_equal(theory, theory0) and np.array_equal(got, again)),
+                  {"geometry": "2d", "accuracy": acc, "theory_changed": not bool(np.array_equal(theory, theory0)),
+                   "second_result_differs": not bool(np.array_equal(got, again))})
         # exact: f(q0) + 1/2 (H_rr sr^2 + H_tt st^2) E[rho^2]/2 in the frame aligned with q
         phi = np.arctan2(d.qy_data, d.qx_data)
         cr, sn = np.cos(phi), np.sin(phi)
